@@ -37,7 +37,7 @@ def kw_regex(text, kind):
     t = text          # the literal text as written (the lexer's unescaping is done by the query printer's inverse)
     out = []
     for ch in t:
-        if ch == ' ':
+        if ch == ' ' and kind == 'wild':      # a blank of a parse pattern is any whitespace; in a quoted keyword it is a blank
             out.append(r'[\t\n\x0b\x0c\r \x85\xa0  -     　]')
         elif ch == '*' and kind == 'wild':
             out.append('(.*?)')
